@@ -1,1 +1,48 @@
-//! witnesses for c09 (filled in below)
+//! C09.R3: the evaluator is parametric in the locale. This locale has an opaque `DateTime`
+//! type offering nothing but `Clone` and `+ Duration`; it type-checks against the whole
+//! evaluation API, so the library cannot build or inspect localized instants on its own.
+
+use std::ops::Add;
+
+use chrono::{Duration, NaiveDateTime};
+use opening_hours::localization::Localize;
+use opening_hours::{Context, OpeningHours};
+
+#[derive(Clone)]
+pub struct Opaque(NaiveDateTime);
+
+impl Add<Duration> for Opaque {
+    type Output = Opaque;
+
+    fn add(self, rhs: Duration) -> Opaque {
+        Opaque(self.0 + rhs)
+    }
+}
+
+#[derive(Clone)]
+pub struct OpaqueLocale;
+
+impl Localize for OpaqueLocale {
+    type DateTime = Opaque;
+
+    fn naive(&self, dt: Opaque) -> NaiveDateTime {
+        dt.0
+    }
+
+    fn datetime(&self, naive: NaiveDateTime) -> Opaque {
+        Opaque(naive)
+    }
+}
+
+fn witness_generic_evaluation(oh: OpeningHours, t: Opaque) {
+    let oh = oh.with_context(Context::default().with_locale(OpaqueLocale));
+    let _: Option<Opaque> = oh.next_change(t.clone());
+    let _ = oh.state(t.clone());
+    let _ = oh.is_open(t.clone());
+    for interval in oh.iter_range(t.clone(), t.clone()) {
+        let _: Opaque = interval.range.start;
+    }
+    for interval in oh.iter_from(t) {
+        let _: Opaque = interval.range.end;
+    }
+}
